@@ -1,6 +1,7 @@
 package props
 
 import (
+	"bytes"
 	"fmt"
 	"math/rand/v2"
 
@@ -31,6 +32,7 @@ func init() {
 			need(m, &out, "micro_words", 200000)
 			need(m, &out, "gap_burst_15", 5)
 			need(m, &out, "giant_unit_plans", 200)
+			need(m, &out, "near_duplicate_cases", 250)
 			need(m, &out, "dup_position_first", 100)
 			need(m, &out, "dup_position_middle", 100)
 			need(m, &out, "dup_position_last", 100)
@@ -278,6 +280,114 @@ func (cr *cleanRef) judge(c *mon.Ctx, stage string, idx int64, f []fkind, faulte
 	for pid := range got {
 		if _, ok := seq[pid]; !ok {
 			c.Violate("C06/"+cls+"/data-on-unknown-pid", stage, idx, fmt.Sprintf("pid %#x", pid), data)
+		}
+	}
+}
+
+// nearDuplicateCase: after a packet of a four-packet unit comes a packet with the same continuity counter and the same payload.
+// Kind "dup": a duplicate in the sense of ISO 13818-1 2.4.3.3 — every byte repeated except, possibly, the values of the clock
+// references (the PCR / OPCR of a duplicate may be re-stamped: later, or earlier across the wrap of the 33 bit base): it must be
+// invisible, the output is that of the stream without it. Kind "near": the same counter and payload but another header or adaptation
+// field (priority, scrambling, a flag, a PCR or an extension where the first packet has stuffing, or the other way round): not a
+// duplicate but what a receiver sees after the loss of 15 packets; whatever is delivered then is a unit the stream carries.
+func nearDuplicateCase(c *mon.Ctx, idx int64, r *rand.Rand) {
+	pcr := func(base uint64, ext uint16) []byte {
+		v := base<<15 | 0x3f<<9 | uint64(ext)
+		return []byte{byte(v >> 40), byte(v >> 32), byte(v >> 24), byte(v >> 16), byte(v >> 8), byte(v)}
+	}
+	stuff := func(b []byte) []byte { // adaptation field content of 16 bytes
+		for len(b) < 16 {
+			b = append(b, 0xff)
+		}
+		return b
+	}
+	base := uint64(r.Uint64N(1 << 33))
+	if idx%3 == 0 {
+		base = 1<<33 - 1 - uint64(r.IntN(3))
+	}
+	type variant struct {
+		name       string
+		dup        bool
+		prio       bool
+		tsc        uint8
+		first, rep []byte // adaptation field content of the packet and of the packet that follows it
+	}
+	withPCR := stuff(append([]byte{0x10}, pcr(base, 17)...))
+	withBoth := stuff(append(append([]byte{0x18}, pcr(base, 17)...), pcr(base/2, 3)...))
+	vs := []variant{
+		{"identical", true, false, 0, withPCR, withPCR},
+		{"pcr-later", true, false, 0, withPCR, stuff(append([]byte{0x10}, pcr((base+uint64(1+r.IntN(5000)))&(1<<33-1), 200)...))},
+		{"pcr-earlier-across-the-wrap", true, false, 0, withPCR, stuff(append([]byte{0x10}, pcr(uint64(r.IntN(4)), 0)...))},
+		{"opcr-other", true, false, 0, withBoth, stuff(append(append([]byte{0x18}, pcr(base+1, 18)...), pcr(base/2+9, 4)...))},
+		{"no-clock", true, false, 0, stuff([]byte{0x40}), stuff([]byte{0x40})},
+		{"priority", false, true, 0, withPCR, withPCR},
+		{"scrambling", false, false, 2, withPCR, withPCR},
+		{"random-access", false, false, 0, stuff([]byte{0x00}), stuff([]byte{0x40})},
+		{"es-priority", false, false, 0, stuff([]byte{0x20}), stuff([]byte{0x00})},
+		{"pcr-versus-stuffing", false, false, 0, stuff([]byte{0x00}), withPCR},
+		{"stuffing-versus-pcr", false, false, 0, withPCR, stuff([]byte{0x00})},
+		{"extension-versus-stuffing", false, false, 0, stuff([]byte{0x01, 0x01, 0x1f}), stuff([]byte{0x00})},
+		{"stuffing-versus-extension", false, false, 0, stuff([]byte{0x00}), stuff([]byte{0x01, 0x01, 0x1f})},
+		{"private-data-versus-stuffing", false, false, 0, stuff([]byte{0x02, 0x03, 1, 2, 3}), stuff([]byte{0x00})},
+		{"splice-versus-stuffing", false, false, 0, stuff([]byte{0x04, 0x05}), stuff([]byte{0x00})},
+	}
+	v := vs[int(idx)%len(vs)]
+	build := func(withRepeat bool) *longStream {
+		s := newLongStream()
+		s.cc[0x100] = uint8(idx) & 15
+		s.pes(0x100, 0xe0, 1, longData(0x100, 1, 60+int(idx)%100), false)
+		d := longData(0x100, 2, 184-14+167+184+90)
+		p := append(pesHeaderPTS(0xe0, 2, len(d), false), d...)
+		s.packet(0x100, true, p[:184])
+		s.afPacket(0x100, false, false, 0, v.first, p[184:184+167], false)
+		if withRepeat {
+			s.afPacket(0x100, false, v.prio, v.tsc, v.rep, p[184:184+167], true)
+		}
+		s.packet(0x100, false, p[351:351+184])
+		s.packet(0x100, false, p[535:])
+		s.want[0x100] = append(s.want[0x100], longUnit{pes: true, pts: 2, data: d, packets: 4})
+		s.pes(0x100, 0xe0, 3, longData(0x100, 3, 300), false)
+		s.pes(0x100, 0xe0, 4, longData(0x100, 4, 20), false)
+		return s
+	}
+	s := build(true)
+	ds, errs, pn := drainData(s.b)
+	c.Count("near_duplicate_cases")
+	c.Seen("near_duplicate_variants", v.name)
+	c.Case(mon.HashStr("neardup", fmt.Sprint(idx)), true)
+	data := map[string]any{"variant": v.name, "stream": mon.Hex(s.b, 1500)}
+	if pn != "" {
+		c.Violate("C06/near-duplicate/panic:"+v.name, "near-dup", idx, pn, data)
+		return
+	}
+	if v.dup {
+		if d := s.compare(ds); d != "" || len(errs) > 0 {
+			c.Violate("C06/dup/duplicate-with-restamped-clock-changes-output:"+v.name, "near-dup", idx, fmt.Sprintf("%s %v", d, errs), data)
+		}
+		return
+	}
+	// not a duplicate: the unit it sits in may be missing, everything delivered is a unit of the stream, the others are all there
+	byPTS := map[int64]longUnit{}
+	for _, u := range s.want[0x100] {
+		byPTS[u.pts] = u
+	}
+	seen := map[int64]bool{}
+	for _, d := range ds {
+		if d.PES == nil || d.PES.Header.OptionalHeader == nil || d.PES.Header.OptionalHeader.PTS == nil {
+			c.Violate("C06/near-duplicate/foreign-or-spliced-unit:"+v.name, "near-dup", idx, "a datum that is no PES with a PTS", data)
+			return
+		}
+		u, ok := byPTS[d.PES.Header.OptionalHeader.PTS.Base]
+		if !ok || !bytes.Equal(u.data, d.PES.Data) {
+			c.Violate("C06/near-duplicate/foreign-or-spliced-unit:"+v.name, "near-dup", idx, fmt.Sprintf("delivered unit with PTS %d and %d bytes equals no unit of the stream", d.PES.Header.OptionalHeader.PTS.Base, len(d.PES.Data)), data)
+			return
+		}
+		seen[u.pts] = true
+	}
+	for _, pts := range []int64{1, 3, 4} {
+		if !seen[pts] {
+			c.Violate("C06/near-duplicate/unit-missing-without-cause:"+v.name, "near-dup", idx, fmt.Sprintf("the unit with PTS %d is not the one the packet sits in, yet it is not delivered", pts), data)
+			return
 		}
 	}
 }
@@ -561,6 +671,12 @@ func runC06(c *mon.Ctx) {
 		}
 		if i < 2 {
 			c.Sample("streams", map[string]any{"packets": N, "pids": m.PIDs, "plans": "all single dups (immediate+delayed), all single deletions, random multi-fault plans"})
+		}
+	}
+	// duplicates with re-stamped clocks, and packets that only look like duplicates
+	for i := int64(0); i < c.Pick(300, 6000); i++ {
+		if c.Mine("near-dup", i) {
+			nearDuplicateCase(c, i, c.Rng("near-dup", i))
 		}
 	}
 	// giant units: units of 257, 1023 .. 3500 packets behind a gap, with a gap or a duplicate inside, and before one
